@@ -329,6 +329,15 @@ pub trait Sut {
 	fn next(&mut self, x: &In) -> Out;
 	fn peek(&self) -> Option<Out>;
 	fn fork(&self) -> Box<dyn Sut>;
+	/// a clone made by `Clone::clone_from` into an existing instance of the same type (built from other parameters and
+	/// already used); falls back to `fork()` where the types differ
+	fn fork_into(&self, other: Box<dyn Sut>) -> Box<dyn Sut> {
+		let _ = other;
+		self.fork()
+	}
+	fn as_any_mut(&mut self) -> Option<&mut dyn std::any::Any> {
+		None
+	}
 	/// None when the type has no Serialize impl
 	fn snapshot(&self, ctl: &SerCtl) -> Option<Result<Value, SimErr>>;
 	fn restore(&self, v: &Value) -> Option<Result<Box<dyn Sut>, String>>;
@@ -429,6 +438,16 @@ where
 			caps: self.caps,
 			_a: std::marker::PhantomData,
 		})
+	}
+	fn fork_into(&self, mut other: Box<dyn Sut>) -> Box<dyn Sut> {
+		if let Some(o) = other.as_any_mut().and_then(|a| a.downcast_mut::<W<M, A>>()) {
+			o.m.clone_from(&self.m);
+			return other;
+		}
+		self.fork()
+	}
+	fn as_any_mut(&mut self) -> Option<&mut dyn std::any::Any> {
+		Some(self)
 	}
 	fn snapshot(&self, ctl: &SerCtl) -> Option<Result<Value, SimErr>> {
 		self.caps.snap.map(|f| f(&self.m, ctl))
